@@ -44,6 +44,7 @@ extern "C" __attribute__((noinline)) void h_vbkadd() {
   // expected verdict: the valid second one needs BTC 2 first
   bool expect = (kind == 0 && goodFirst) || kind == 1;             // (a repeated VTB is accepted at this level by design: see the comment in addPayloadToAppliedBlock)
   { PopData store; store.vtbs = both; w.store.writePayloads(store); }   // precondition of the entry point: the payload bodies are in the payloads storage
+  verif_check(vbkIndexExact(t), 14);
   uint64_t before = spDigest();
   ValidationState st;
   bool ok = t.vbk().addPayloads(w.vbkById[c].getHash(), both, st);
@@ -53,16 +54,19 @@ extern "C" __attribute__((noinline)) void h_vbkadd() {
     verif_check(spDigest() == before, 4);                           // unsuccessful: the VBK and BTC views are exactly as before (every applied VTB rolled back, tip restored)
     verif_check(ci->getPayloadIds<VTB>().empty(), 5);
     verif_check(!st.IsValid(), 6);
+    verif_check(vbkIndexExact(t), 11);                              // incl. the VBK payload index: nothing of the failed call is left in it
     verif_cover(1 + (int)kind);
   } else {
     if (kind == 1) verif_cover(2);
     verif_check(ci->getPayloadIds<VTB>().size() == 2, 7);
+    verif_check(vbkIndexExact(t), 12);
     bool applied = t.vbk().getBestChain().contains(ci);             // the containing fork block may or may not have won POP fork resolution
     if (kind == 0) verif_check((t.btc().getBlockIndex(w.btcById[3].getHash()) != nullptr) == applied, 8);   // its BTC context exists exactly while it is applied
     // and it can be taken back payload by payload: the views return to the state before the call
     if (kind == 0) t.vbk().removePayloads(w.vbkById[c].getHash(), {second.getId(), good.getId()}); else t.vbk().removePayloads(w.vbkById[c].getHash(), {good.getId(), good.getId()});
     verif_check(spDigest() == before || c == 5, 9);                 // (on the fork block the POP-driven best chain may legitimately differ while payloads exist; after removal it is compared below)
     verif_check(ci->getPayloadIds<VTB>().empty() && t.btc().getBlocks().size() == 1, 10);
+    verif_check(vbkIndexExact(t), 13);
     verif_cover(5);
   }
   if (c == 5) verif_cover(6);
